@@ -85,32 +85,35 @@ def mkValue (neg : Bool) (ip fp : Str) (eneg : Bool) (eds : Str) : Rat :=
   let e : Int := if eneg then - (digitsVal eds : Int) else (digitsVal eds : Int)
   (if neg then -m else m) * pow10 e
 
-/-- `istringstream >> double` on the "C" locale up to rounding: libstdc++ accumulates
-`[+-]? digit* ('.' digit*)? ([eE] [+-]? digit*)?` (the exponent only after a mantissa digit),
-hands it to `strtod`, and stores 0 when `strtod` does not consume all of it. -/
-def streamDouble (s : Str) : Rat :=
-  let (neg, s1) := match s with
-    | '-' :: r => (true, r)
-    | '+' :: r => (false, r)
-    | _ => (false, s)
-  let ip := s1.takeWhile isDigit
-  let s2 := s1.dropWhile isDigit
-  let (fp, s3) := match s2 with
-    | '.' :: r => (r.takeWhile isDigit, r.dropWhile isDigit)
-    | _ => ([], s2)
+/-- exponent part of the stream extraction: optional sign, digits (`strtod` needs at least one) -/
+def streamExpVal (neg : Bool) (ip fp : Str) (r : Str) : Rat :=
+  match r with
+  | '-' :: t => if (t.takeWhile isDigit).isEmpty then 0 else mkValue neg ip fp true (t.takeWhile isDigit)
+  | '+' :: t => if (t.takeWhile isDigit).isEmpty then 0 else mkValue neg ip fp false (t.takeWhile isDigit)
+  | _ => if (r.takeWhile isDigit).isEmpty then 0 else mkValue neg ip fp false (r.takeWhile isDigit)
+
+def streamTail (neg : Bool) (ip fp s3 : Str) : Rat :=
   if ip.isEmpty && fp.isEmpty then 0                      -- no mantissa digit: strtod fails
   else match s3 with
-    | c :: r =>
-      if c == 'e' || c == 'E' then
-        let (eneg, r1) := match r with
-          | '-' :: t => (true, t)
-          | '+' :: t => (false, t)
-          | _ => (false, r)
-        let eds := r1.takeWhile isDigit
-        if eds.isEmpty then 0                               -- "1e", "1e+": strtod stops before 'e'
-        else mkValue neg ip fp eneg eds
-      else mkValue neg ip fp false []
     | [] => mkValue neg ip fp false []
+    | c :: r => if c == 'e' || c == 'E' then streamExpVal neg ip fp r else mkValue neg ip fp false []
+
+def streamUnsigned (neg : Bool) (s1 : Str) : Rat :=
+  match s1.dropWhile isDigit with
+  | [] => streamTail neg (s1.takeWhile isDigit) [] []
+  | c :: r =>
+    if c == '.' then streamTail neg (s1.takeWhile isDigit) (r.takeWhile isDigit) (r.dropWhile isDigit)
+    else streamTail neg (s1.takeWhile isDigit) [] (c :: r)
+
+/-- `istringstream >> double` on the "C" locale up to rounding: libstdc++ accumulates
+`[+-]? digit* ('.' digit*)? ([eE] [+-]? digit*)?` (the exponent only after a mantissa digit),
+hands it to `strtod`, and stores 0 when `strtod` does not consume all of it ("", "-", ".",
+"1e", "1e+"). -/
+def streamDouble (s : Str) : Rat :=
+  match s with
+  | '-' :: r => streamUnsigned true r
+  | '+' :: r => streamUnsigned false r
+  | _ => streamUnsigned false s
 
 def intMax : Int := 2147483647
 def intMin : Int := -2147483648
